@@ -40,6 +40,8 @@ def absorb15(chk, results):
             chk.disagreements_checked += 1
             chk.disagreement(sig, w, case)
     chk.nontrivial_extra = nontrivial
+    # the replay is the smallest failing input found
+    chk.violations.sort(key=lambda v: ev.count_nodes(v["case"]["doc"]) * 10 + len(v["case"].get("path") or ""))
 
 
 def run(chk: core.Check):
